@@ -3,7 +3,7 @@ CONSTANTS
   N = 2
   Deadlines = {1}
   Periods = {1}
-  Kinds = {"sleep", "interval"}
+  Kinds = {"sleep", "timeout", "interval"}
   NW = 1
   MaxNow = 2
   MaxGen = 3
